@@ -20,6 +20,7 @@ CONSTANTS
   HandlerIds = {}
   Kinds = {}
   Keys = {1}
+  BadKeys = {}
   SrcOpts = {}
   EvKinds = {"ps"}
   MaxBatch = 3
